@@ -241,6 +241,33 @@ def apply_op(vals, op, step):
         push(s["dissoc"](real, key(op[2])), d, None)
     elif name == "disj" and kind == "set":
         push(s["disj"](real, key(op[2])), model - {key(op[2])}, None)
+    elif name == "many":
+        # the variadic forms: (conj c x y z) (assoc m k v k v) (dissoc m k k k) (disj s k k k) = the one-argument
+        # form applied from left to right; members and non-members in any order
+        ks = [key(i) for i in op[2]]
+        if kind == "set":
+            if op[3] % 2:
+                push(s["disj"](real, *ks), model - set(ks), None)
+            else:
+                push(s["conj"](real, *ks), model | set(ks), None)
+        elif kind == "map":
+            d = dict(model)
+            if op[3] % 2:
+                for k in ks:
+                    d.pop(k, None)
+                push(s["dissoc"](real, *ks), d, None)
+            else:
+                kvs = []
+                for j, k in enumerate(ks):
+                    d[k] = elem(op[3] + j)
+                    kvs += [k, elem(op[3] + j)]
+                push(s["assoc"](real, *kvs), d, None)
+        else:
+            m2 = model
+            for i in op[2]:
+                m2 = model_conj(kind, m2, elem(i))
+            push(s["conj"](real, *[elem(i) for i in op[2]]), m2, None)
+        labels.add("variadic")
     elif name == "pop" and kind in ("vector", "list", "queue"):
         if not model:
             if not expect_raise(s["pop"], real):
@@ -293,7 +320,8 @@ def apply_op(vals, op, step):
     elif name == "empty":
         push(s["empty"](real), type(model)() if not isinstance(model, dict) else {}, None)
     elif name == "with-meta":
-        meta = s["lmap"].map({s["kw"].keyword("m"): op[2] % 3})
+        # {:m k}, the empty map, or nil: the result carries exactly what was given
+        meta = [None, s["lmap"].EMPTY][op[2] % 5 - 3] if op[2] % 5 >= 3 else s["lmap"].map({s["kw"].keyword("m"): op[2] % 5})
         push(s["with-meta"](real, meta), model, meta, "with-meta")
         labels.add("with-meta")
     elif name == "vary-meta":
@@ -414,8 +442,10 @@ def small_ops(kind_idx, kind):
     else:
         for k in (0, 1, 2):
             ops += [("conj", k), ("disj", k)]
-        ops += [("into", 34), ("empty",), ("with-meta", 1),
+        ops += [("into", 34), ("empty",), ("with-meta", 1), ("many", (1, 0), 1), ("many", (2, 0), 0),
                 ("transient", (("conj!", 0), ("conj!", 1), ("disj!", 0))), ("transient", (("disj!", 1),))]
+    if kind in ("vector", "map"):
+        ops += [("with-meta", 3), ("with-meta", 4), ("many", (2, 0), 1)]
     return ops
 
 
@@ -526,7 +556,8 @@ def shard(i, n, tier, seed, findings):
         st.tuples(st.just("into"), tgt, st.sampled_from([0, 1, 5, 31, 32, 33, 34, 64, 65, 70])),
         st.tuples(st.just("into-from"), tgt, tgt),
         st.tuples(st.just("empty"), tgt),
-        st.tuples(st.just("with-meta"), tgt, st.integers(0, 2)),
+        st.tuples(st.just("with-meta"), tgt, st.integers(0, 4)),
+        st.tuples(st.just("many"), tgt, st.lists(st.integers(0, 8), min_size=2, max_size=4), st.integers(0, 7)),
         st.tuples(st.just("vary-meta"), tgt),
         st.tuples(st.just("update"), tgt, st.integers(0, 8)),
         st.tuples(st.just("merge"), tgt, tgt),
